@@ -35,19 +35,54 @@ func c04Named(cs *callSpec) [][]byte {
 	return l
 }
 
+// c04Exp: the flags as the HISTORY says they must be: set / cleared only by successful operations of the ESDT system
+// contract (Freeze -> frozen, UnFreeze / Wipe -> not frozen, Pause / UnPause).  The stored flags are compared with it
+// after every such operation, and the "no balance change" rule uses both views (a flag lost in storage does not unfreeze).
+type c04Exp struct {
+	frozen map[string]bool // shard/account/key suffix
+	paused map[string]bool // shard/key suffix
+}
+
+var c04State = map[*hWorld]*c04Exp{}
+
+func c04Of(w *hWorld) *c04Exp {
+	st, ok := c04State[w]
+	if !ok {
+		st = &c04Exp{frozen: map[string]bool{}, paused: map[string]bool{}}
+		c04State[w] = st
+	}
+	return st
+}
+
+func c04PK(shard uint32, suf string) string { return fmt.Sprintf("%d/%x", shard, suf) }
+
+func init() {
+	tkForkHooks = append(tkForkHooks, func(from, to *hWorld) {
+		if st, ok := c04State[from]; ok {
+			n := c04Of(to)
+			for k, v := range st.frozen {
+				n.frozen[k] = v
+			}
+			for k, v := range st.paused {
+				n.paused[k] = v
+			}
+		}
+	})
+}
+
 // monC04: no successful call changes a balance that is frozen (fungible entry of the account) or paused
-// (flag of the token, or of the full key, in the executing shard's system account) in the pre-state,
-// except wipe / unfreeze / unpause by the system contract, return-after-error calls, and the system contract's own account
+// (flag of the token, or of the full key, in the executing shard's system account) — in the stored pre-state OR according
+// to the history of system-contract operations — except wipe / unfreeze / unpause by the system contract,
+// return-after-error calls, and the system contract's own account; and every successful Freeze / UnFreeze / Wipe /
+// Pause / UnPause leaves the stored flag in the state the operation names
 func monC04(c *ctx, w *hWorld, pre *worldSnap, sr *stepResult, hist []string) {
 	cs := sr.Call
 	if sr.Res.Status != 0 {
 		return
 	}
-	act := tkDiff(pre.Balances, w.allBalances())
-	if len(act) == 0 {
-		return
-	}
+	st := c04Of(w)
 	isSC := bytes.Equal(cs.Caller, vmcommon.ESDTSCAddress)
+	act := tkDiff(pre.Balances, w.allBalances())
 	exemptCall := cs.RAE || isSC && (cs.Fn == "ESDTWipe" || cs.Fn == "ESDTUnFreeze" || cs.Fn == "ESDTUnPause")
 	named := c04Named(cs)
 	var ks []string
@@ -55,6 +90,7 @@ func monC04(c *ctx, w *hWorld, pre *worldSnap, sr *stepResult, hist []string) {
 		ks = append(ks, k)
 	}
 	sort.Strings(ks)
+	post := w.shards[cs.Shard].accounts
 	for _, k := range ks {
 		parts := strings.SplitN(k, "/", 3)
 		if len(parts) != 3 || parts[0] != fmt.Sprint(cs.Shard) {
@@ -63,14 +99,24 @@ func monC04(c *ctx, w *hWorld, pre *worldSnap, sr *stepResult, hist []string) {
 		addr, _ := hex.DecodeString(parts[1])
 		sufB, _ := hex.DecodeString(parts[2])
 		suf := string(sufB)
-		frozen := false
-		if t := tkEntry(sr.Res.Pre, addr, suf); tkIsFungibleEntry(t) && tkFrozenProps(t.Properties) {
+		frozen, how := false, "stored flag"
+		t := tkEntry(sr.Res.Pre, addr, suf)
+		if tkIsFungibleEntry(t) && tkFrozenProps(t.Properties) {
 			frozen = true
+		} else if st.frozen[k] && (t == nil || tkIsFungibleEntry(t)) {
+			frozen, how = true, "frozen by the system contract earlier in the history and never unfrozen; the stored flag is gone"
 		}
 		paused := tkPausedOn(sr.Res.Pre, suf)
-		for _, t := range named {
-			if bytes.HasPrefix(sufB, t) && tkPausedOn(sr.Res.Pre, string(t)) {
-				paused = true
+		if !paused && st.paused[c04PK(cs.Shard, suf)] {
+			paused, how = true, "paused by the system contract earlier in the history and never unpaused; the stored flag is gone"
+		}
+		for _, tn := range named {
+			if bytes.HasPrefix(sufB, tn) {
+				if tkPausedOn(sr.Res.Pre, string(tn)) {
+					paused = true
+				} else if st.paused[c04PK(cs.Shard, string(tn))] {
+					paused, how = true, "paused by the system contract earlier in the history and never unpaused; the stored flag is gone"
+				}
 			}
 		}
 		if !frozen && !paused {
@@ -82,14 +128,50 @@ func monC04(c *ctx, w *hWorld, pre *worldSnap, sr *stepResult, hist []string) {
 		}
 		if exemptCall || bytes.Equal(addr, vmcommon.ESDTSCAddress) {
 			c.count("c04/exempt-change/" + state + "/" + cs.Fn)
+			if st.frozen[k] { // an exempt call may take the whole entry away: follow the storage from here on
+				nt := tkEntry(post, addr, suf)
+				st.frozen[k] = nt != nil && tkFrozenProps(nt.Properties)
+			}
 			continue
 		}
 		sig := state + "-balance-changed/" + cs.Fn
 		if (cs.Fn == "ESDTPause" || cs.Fn == "ESDTUnPause") && bytes.Equal(addr, vmcommon.SystemAccountAddress) {
 			sig = tkSigF8
 		}
-		c.fail("monitor", sig, fmt.Sprintf("%s changed the balance of account %x, key %x on shard %d by %v while it was %s", cs.Fn, addr, sufB, cs.Shard, act[k], state), tkReplay(sr, hist))
+		c.fail("monitor", sig, fmt.Sprintf("%s changed the balance of account %x, key %x on shard %d by %v while it was %s (%s)", cs.Fn, addr, sufB, cs.Shard, act[k], state, how), tkReplay(sr, hist))
+		break
+	}
+	// the system contract's flag operations: history view updated, stored flag must agree
+	if !isSC || len(cs.Args) != 1 {
 		return
+	}
+	key := string(cs.Args[0])
+	switch cs.Fn {
+	case "ESDTFreeze", "ESDTUnFreeze", "ESDTWipe":
+		fk := tkBK(cs.Shard, cs.Rcpt, key)
+		nt := tkEntry(post, cs.Rcpt, key)
+		stored := nt != nil && tkFrozenProps(nt.Properties)
+		want := cs.Fn == "ESDTFreeze"
+		st.frozen[fk] = want
+		if stored != want {
+			sig := "flag-not-set/" + cs.Fn
+			if !want {
+				sig = "flag-not-cleared/" + cs.Fn
+			}
+			c.fail("monitor", sig, fmt.Sprintf("after a successful %s of key %x on account %x the stored frozen flag is %v", cs.Fn, key, cs.Rcpt, stored), tkReplay(sr, hist))
+		}
+		c.count("c04/flag-checked/" + cs.Fn)
+	case "ESDTPause", "ESDTUnPause":
+		want := cs.Fn == "ESDTPause"
+		st.paused[c04PK(cs.Shard, key)] = want
+		if stored := tkPausedOn(post, key); stored != want {
+			sig := "flag-not-set/" + cs.Fn
+			if !want {
+				sig = "flag-not-cleared/" + cs.Fn
+			}
+			c.fail("monitor", sig, fmt.Sprintf("after a successful %s of key %x on shard %d the stored pause flag is %v", cs.Fn, key, cs.Shard, stored), tkReplay(sr, hist))
+		}
+		c.count("c04/flag-checked/" + cs.Fn)
 	}
 }
 
@@ -384,6 +466,79 @@ func c04SystemAccountHolding(c *ctx, u *universe, b *tkBudget) {
 	}
 }
 
+// c04Repeats: repeated and alternating flag operations — a second Freeze / Pause must not release, a second UnFreeze /
+// UnPause must not block, Freeze after UnFreeze blocks again
+func c04Repeats(c *ctx, u *universe, b *tkBudget) {
+	A, B, X := u.U[0], u.U[1], u.U[2]
+	F, S := u.Fung[0], u.NFTs[1]
+	w := u.stdWorld(2, 1, distinctGas(35, 3))
+	u.populate(w)
+	base := c.tkNewRun(u, w, "repeats", []monitor{monC04}, b, false)
+	seqs := [][]string{
+		{"ESDTFreeze", "ESDTFreeze"},
+		{"ESDTFreeze", "ESDTFreeze", "ESDTFreeze"},
+		{"ESDTUnFreeze", "ESDTUnFreeze"},
+		{"ESDTFreeze", "ESDTUnFreeze", "ESDTUnFreeze"},
+		{"ESDTFreeze", "ESDTUnFreeze", "ESDTFreeze"},
+		{"ESDTFreeze", "ESDTFreeze", "ESDTUnFreeze"},
+		{"ESDTFreeze", "ESDTWipe", "ESDTFreeze"},
+		{"ESDTPause", "ESDTPause"},
+		{"ESDTPause", "ESDTPause", "ESDTPause"},
+		{"ESDTUnPause", "ESDTUnPause"},
+		{"ESDTPause", "ESDTUnPause", "ESDTUnPause"},
+		{"ESDTPause", "ESDTUnPause", "ESDTPause"},
+		{"ESDTPause", "ESDTPause", "ESDTUnPause"},
+	}
+	for _, seq := range seqs {
+		// (account whose flag is toggled, shard, key) x probes around it
+		for _, tgt := range []struct {
+			name  string
+			acct  []byte
+			shard uint32
+			key   []byte
+			tok   []byte
+		}{
+			{"sender/fungible", A, 0, F, F},
+			{"same-shard-destination/fungible", B, 0, F, F},
+			{"cross-shard-destination/fungible", X, 1, F, F},
+			{"sender/sft-key", A, 0, []byte(tkKey(S, 1)), S},
+			{"cross-shard-destination/sft-key", X, 1, []byte(tkKey(S, 1)), S},
+		} {
+			r := base.fork("repeats/" + strings.Join(seq, ";") + "/" + tgt.name)
+			for _, fn := range seq {
+				var sr *stepResult
+				if strings.Contains(fn, "Pause") {
+					sr = r.sysOn(tgt.shard, u.SYS, fn, tgt.tok)
+				} else {
+					sr = r.sysOn(tgt.shard, tgt.acct, fn, tgt.key)
+				}
+				c.count("c04/repeats/" + fn + "/" + c04Status(sr))
+			}
+			probe := func(sr *stepResult) {
+				if !sr.Skipped {
+					c.count("c04/repeats/after-" + strings.Join(seq, ";") + "/" + sr.Call.Fn + "/" + c04Status(sr))
+				}
+			}
+			probe(r.tx(A, B, "ESDTTransfer", bigGas, F, be(3)))
+			probe(r.tx(B, A, "ESDTTransfer", bigGas, F, be(2)))
+			probe(r.tx(A, A, "ESDTLocalMint", bigGas, F, be(5)))
+			probe(r.tx(A, A, "ESDTNFTTransfer", bigGas, S, be(1), be(2), B))
+			probe(r.tx(A, A, "ESDTNFTAddQuantity", bigGas, S, be(1), be(1)))
+			probe(r.tx(A, A, "MultiESDTNFTTransfer", bigGas, tkMulti(B, F, nil, be(1), S, be(1), be(1))...))
+			for _, o := range []*stepResult{
+				r.tx(A, X, "ESDTTransfer", bigGas, F, be(4)),
+				r.tx(A, A, "ESDTNFTTransfer", bigGas, S, be(1), be(2), X),
+				r.tx(A, A, "MultiESDTNFTTransfer", bigGas, tkMulti(X, F, nil, be(1), S, be(1), be(1))...),
+			} {
+				probe(o)
+				for _, m := range o.NewMsgs {
+					probe(r.deliver(m))
+				}
+			}
+		}
+	}
+}
+
 func c04Tune(g *gen) {
 	g.wSystem, g.wTransfer, g.wSupply, g.wDeliver, g.wHostile, g.wAccount = 26, 32, 20, 12, 8, 2
 }
@@ -392,8 +547,8 @@ func init() {
 	runners["C04"] = func(c *ctx) {
 		u := newUniverse()
 		proj := tkProj(false, true)
-		c.rep.Rule = "(1) one scenario family per call site of checkFrozeAndPause (addToESDTBalance; saveESDTNFTToken incl. its second, full-key lookup; esdtNFTTransfer.addNFTToDestination; esdtNFTMultiTransfer.addNFTToDestination) x function x sender / destination side x same / cross shard (destination side through delivery of the real message) x {account frozen, token paused, full key paused}, each on four clones of one world: never blocked (control), blocked, flag set and cleared again (must decide and move balances exactly like the control), blocked with ReturnCallAfterError or refund into a frozen+paused sender (exemptions); on two worlds (system-account address living on shard 0 / shard 1); wipe / unfreeze / unpause by the system contract and by users; the frozen holding of the system-account address itself followed by ESDTPause / ESDTUnPause (known finding F8). extra.site_hits counts, per site, the scenarios in which the control was accepted and the blocked call was refused with the frozen / paused error. " +
-			"(2) random walks weighted to freeze / unfreeze / pause / unpause / wipe interleaved with transfers, deliveries, refunds, supply functions and hostile calls. After EVERY executed call the monitor reads the flags from the pre-state of the executing shard (frozen bit of the account's fungible entry; 2-byte pause value under ELRONDesdt‖token and ELRONDesdt‖token‖nonce in the shard's system account) and fails if a successful call changed such a balance, except wipe/unfreeze/unpause by the system contract, ReturnCallAfterError calls and the ESDT system contract's own account. " +
+		c.rep.Rule = "(1) one scenario family per call site of checkFrozeAndPause (addToESDTBalance; saveESDTNFTToken incl. its second, full-key lookup; esdtNFTTransfer.addNFTToDestination; esdtNFTMultiTransfer.addNFTToDestination) x function x sender / destination side x same / cross shard (destination side through delivery of the real message) x {account frozen, token paused, full key paused}, each on four clones of one world: never blocked (control), blocked, flag set and cleared again (must decide and move balances exactly like the control), blocked with ReturnCallAfterError or refund into a frozen+paused sender (exemptions); on two worlds (system-account address living on shard 0 / shard 1); wipe / unfreeze / unpause by the system contract and by users; repeated and alternating flag operations (freeze;freeze / pause;pause / unfreeze;unfreeze / freeze;unfreeze;freeze / freeze;wipe;freeze / ... on the sender, a same-shard and a cross-shard destination, fungible key and SFT key) each followed by transfers in both directions, mint, add-quantity, NFT and multi transfers and deliveries; the frozen holding of the system-account address itself followed by ESDTPause / ESDTUnPause (known finding F8). extra.site_hits counts, per site, the scenarios in which the control was accepted and the blocked call was refused with the frozen / paused error. " +
+			"(2) random walks weighted to freeze / unfreeze / pause / unpause / wipe interleaved with transfers, deliveries, refunds, supply functions and hostile calls. The monitor also keeps, per world, the flags as the HISTORY of successful system-contract operations says they must be (Freeze -> frozen; UnFreeze, Wipe -> not frozen; Pause / UnPause), checks after each such operation that the stored flag agrees (flag-not-set / flag-not-cleared), and uses the history view in addition to the stored one below. After EVERY executed call the monitor reads the flags from the pre-state of the executing shard (frozen bit of the account's fungible entry; 2-byte pause value under ELRONDesdt‖token and ELRONDesdt‖token‖nonce in the shard's system account) and fails if a successful call changed such a balance, except wipe/unfreeze/unpause by the system contract, ReturnCallAfterError calls and the ESDT system contract's own account. " +
 			"Every executed call is re-executed by the Coq model (projection: status + complete post-state). distinct = distinct (world state, operation)."
 		c.tkBegin(proj)
 		quick := !(c.thorough() || c.widen)
@@ -405,6 +560,7 @@ func init() {
 		c04RunSites(c, u, budget, hits, misses)
 		c04SystemOnly(c, u, &tkBudget{max: 40})
 		c04SystemAccountHolding(c, u, &tkBudget{max: 10})
+		c04Repeats(c, u, &tkBudget{max: 500, every: 2})
 		perSite := map[string]int{}
 		for k, v := range hits {
 			perSite[strings.SplitN(k, "/", 2)[0]] += v
